@@ -176,8 +176,8 @@ var strs = map[int]string{1: "Someone, somewhere", 2: "another: value"}
 var (
 	names   = map[int]string{1: "Main", 2: "*Alt style", 3: "Third"} // a style may itself be defined under a name with an asterisk
 	fonts   = map[int]string{1: "Arial", 2: "Comic Sans MS"}
-	floats  = map[int]float64{1: 4, 2: 0.1, 3: 12.5}
-	floatS  = map[int]string{1: "4", 2: "0.1", 3: "12.5"}
+	floats  = map[int]float64{1: 4, 2: 0.1, 3: 65536.123} // the third needs more than single precision at three decimals
+	floatS  = map[int]string{1: "4", 2: "0.1", 3: "65536.123"}
 	colours = map[int]astisub.Color{1: {Red: 0xFC, Green: 0xFC, Blue: 0xB4}, 2: {Red: 8, Alpha: 0x80}, 3: {Red: 255, Green: 255}}
 	voices  = map[int]string{1: "Cher"}
 	effects = map[int]string{1: "Scroll up;100;0"}
